@@ -368,7 +368,10 @@ func (p *Program) newInterpreter(ec ExploreConfig, w int) (*interpreter, error) 
 			continue
 		}
 		if err := i.runInit(sp); err != nil {
-			return nil, fmt.Errorf("init of %s: %v", path, err)
+			if !warnedInit[path] {
+				warnedInit[path] = true
+				fmt.Fprintf(os.Stderr, "warning: package %s could not be initialised in the engine (%v); its package-level variables stay zero\n", path, firstLineOf(err.Error()))
+			}
 		}
 	}
 	i.onceGlobals = map[*ssa.Global]bool{}
@@ -376,6 +379,18 @@ func (p *Program) newInterpreter(ec ExploreConfig, w int) (*interpreter, error) 
 		i.onceGlobals[g] = true
 	}
 	return i, nil
+}
+
+var warnedInit = map[string]bool{}
+
+func firstLineOf(s string) string {
+	if k := strings.IndexByte(s, '\n'); k >= 0 {
+		s = s[:k]
+	}
+	if len(s) > 200 {
+		s = s[:200]
+	}
+	return s
 }
 
 func newPathState(item WorkItem) *pathState {
